@@ -54,6 +54,10 @@ type collector struct {
 	stop int
 	done bool
 	max  int // callback budget (0: none); exceeding it panics with errCallbackBudget
+	// the previous row as delivered (not copied) and its copy: it must not change while later rows are read
+	prevRaw   []hx.Value
+	prevClone hx.Row
+	changed   string
 }
 
 type callbackBudgetExceeded struct{}
@@ -66,7 +70,12 @@ func (c *collector) add(r []hx.Value) bool {
 	if c.max > 0 && c.res.callbacks > c.max {
 		panic(callbackBudgetExceeded{})
 	}
-	c.res.rows = append(c.res.rows, hx.CloneRow(r))
+	if c.prevRaw != nil && c.changed == "" && !hx.RowEqualStrict(hx.Row(c.prevRaw), c.prevClone) {
+		c.changed = fmt.Sprintf("row %d changed after row %d was read: was %s, now %s", c.res.callbacks-1, c.res.callbacks, hx.RowString(c.prevClone), hx.RowString(c.prevRaw))
+	}
+	cl := hx.CloneRow(r)
+	c.prevRaw, c.prevClone = r, cl
+	c.res.rows = append(c.res.rows, cl)
 	if c.stop > 0 && c.res.callbacks >= c.stop {
 		c.done = true
 		return true
@@ -91,6 +100,9 @@ func runOp(f func(c *collector) error, stop int) opResult {
 		}()
 		c.res.err = f(c)
 	}()
+	if c.changed != "" && c.res.panicMsg == "" {
+		c.res.panicMsg = "RETAINED-ROW-CHANGED: " + c.changed
+	}
 	return c.res
 }
 
